@@ -104,4 +104,4 @@ Proof. unfold wshr. destruct (s <? 256); [apply Zdiv_0_l|reflexivity]. Qed.
   wmod_1_r wmod_diag wmod_0_r weq_diag wgt_diag wlt_diag wsgt_diag wslt_diag wiszero_0 wiszero_1
   wnot_alt wshl_0_r wshr_0_l wshr_0_r : wordalg.
 #[export] Hint Rewrite wand_ones_l wand_ones_r wexp_1_r wexp_1_l wadd_0_l wadd_0_r wsub_0_r wmul_1_l wmul_1_r
-  wsdiv_1_r wgt_0_l wlt_0_r wshl_0_l using (assumption || auto) : wordalg.
+  wsdiv_1_r wgt_0_l wlt_0_r wshl_0_l wdiv_diag wsdiv_diag using (assumption || auto) : wordalg.
